@@ -569,11 +569,110 @@ pub fn run(rep: &mut Report) {
             rep.sample(&format!("v{}", it % 8), || json!({"kind": kind_name, "date": date_text(k), "time": fmt_ns_of_day(tod), "calendar": cal}));
         }
     }
+    evals += zoned_named(rep);
     rep.evaluations += evals;
     rep.add("cases", evals);
     for c in ["cases", "feature/extended_year", "feature/year_format_boundary", "feature/negative_offset", "feature/offset_with_minutes", "feature/fraction_len_0", "feature/fraction_len_9", "feature/duration_only-subsecond", "feature/duration_only-date"] {
         rep.require(c);
     }
+}
+
+/// ZonedDateTime in named zones with rules, through the library's own zone data, at instants around the zone's
+/// transitions and with every precision / rounding mode: the text must be the canonical form of the ROUNDED instant
+/// (wall time and offset both taken at the rounded instant), must equal the text of that rounded instant formatted
+/// without further rounding, and must parse back to exactly that instant in the same zone.
+fn zoned_named(rep: &mut Report) -> u64 {
+    use crate::refmodel::round::{round_int, Mode, ALL_MODES};
+    use crate::zones::{load_real, SEC};
+    let mut rng = rep.cfg.rng("c11-named");
+    let n = rep.cfg.budget(120_000, 6_000_000);
+    let fs = temporal_rs::tzdb::FsTzdbProvider::default();
+    let real = load_real("/verif/.build/zones.tbl");
+    let want = ["America/New_York", "Europe/Dublin", "Europe/London", "Australia/Lord_Howe", "Pacific/Apia", "Asia/Kolkata", "Asia/Kathmandu", "Africa/Casablanca", "America/Sao_Paulo", "Africa/Monrovia", "America/St_Johns", "Pacific/Chatham", "Asia/Tehran", "Europe/Berlin", "America/Havana", "Atlantic/Azores"];
+    let zones: Vec<_> = if rep.cfg.thorough() { real.iter().filter(|z| !z.trans.is_empty()).collect() } else { real.iter().filter(|z| want.contains(&z.name.as_str()) && !z.trans.is_empty()).collect() };
+    if zones.is_empty() {
+        rep.harness_error("no zone tables loaded for the named-zone formatting scenario".into());
+        return 0;
+    }
+    // the exported tables end in 2120
+    const HORIZON: i128 = 4_700_000_000 * SEC;
+    let mut evals = 0u64;
+    for _ in 0..n {
+        let sub = rng.u64();
+        if !rep.begin() {
+            continue;
+        }
+        evals += 1;
+        let mut r = Rng::new(sub, "c11-named-case", 0);
+        let z = *r.pick(&zones);
+        let (tr, _) = z.trans[r.below(z.trans.len() as u64) as usize];
+        let step_sel = *r.pick(&[0u64, 1, 2, 3, 5, 6]);
+        let (step, digits, prec, unit): (i128, Option<u8>, Precision, Option<Unit>) = match step_sel {
+            0 => (1, None, Precision::Auto, None),
+            1 => (SEC, Some(0), Precision::Digit(0), None),
+            2 => (1_000_000, Some(3), Precision::Digit(3), None),
+            3 => (1_000, Some(6), Precision::Digit(6), None),
+            4 => (60 * SEC, None, Precision::Minute, None),
+            5 => (SEC, Some(0), Precision::Auto, Some(Unit::Second)),
+            _ => (60 * SEC, None, Precision::Auto, Some(Unit::Minute)),
+        };
+        let minute = step == 60 * SEC;
+        let delta = *r.pick(&[-1i128, 0, 1, -step / 2, -step / 2 - 1, -step / 2 + 1, -step + 1, -step, step / 2, step - 1, -3 * step / 2, -SEC / 2, -30 * SEC, 3_600 * SEC - 1]) + if r.chance(1, 5) { r.range128(-2 * step, 2 * step) } else { 0 };
+        let t = tr as i128 * SEC + delta;
+        if t.abs() >= HORIZON {
+            continue;
+        }
+        let m: Mode = *r.pick(&ALL_MODES);
+        let (rounded, _) = round_int(t, step, m);
+        let off = z.ref_offset_at(rounded.div_euclid(SEC) as i64);
+        let local = rounded + off as i128 * SEC;
+        let off_min = round_int(off as i128, 60, Mode::HalfExpand).0 / 60;
+        let tod = local.rem_euclid(NS_PER_DAY);
+        let time = if minute { let (h, mi, ..) = split_ns_of_day(tod); format!("{h:02}:{mi:02}") } else { time_text(tod, digits) };
+        let exp = format!("{}T{}{}[{}]", date_text(local.div_euclid(NS_PER_DAY) as i64), time, offset_text(off_min as i64), z.name);
+        let opts = |mode: RoundingMode| ToStringRoundingOptions { precision: prec, smallest_unit: unit, rounding_mode: Some(mode) };
+        let crosses = z.ref_offset_at(t.div_euclid(SEC) as i64) != off;
+        let feature = format!("(named,{},{})", ["auto", "digits=0", "digits=3", "digits=6", "precision=minute", "smallestUnit=second", "smallestUnit=minute"][step_sel as usize], if crosses { "rounds-across-a-transition" } else if rounded != t { "rounds" } else { "already-a-multiple" });
+        let case = || json!({"zone": z.name, "instant_ns": t.to_string(), "rounding_mode": m.name(), "rounded_instant_ns": rounded.to_string()});
+        let fmt = |ns: i128, mode: RoundingMode| {
+            call(|| {
+                let tz = TimeZone::try_from_identifier_str(&z.name)?;
+                ZonedDateTime::try_new(ns, Calendar::default(), tz)?.to_ixdtf_string_with_provider(DisplayOffset::Auto, DisplayTimeZone::Auto, DisplayCalendar::Auto, opts(mode), &fs)
+            })
+        };
+        let a = fmt(t, m.to_lib());
+        if crosses {
+            rep.hit("named/rounds_across_a_transition");
+        }
+        if !check_text(rep, "ZonedDateTime::to_ixdtf_string(named zone)", &feature, case(), &a, &exp) {
+            continue;
+        }
+        // the same text as the rounded instant formatted with no rounding left to do
+        let b = fmt(rounded, RoundingMode::Trunc);
+        if !b.is_broken() && b.as_ok() != a.as_ok() {
+            rep.violation("C11.canonical", "ZonedDateTime::to_ixdtf_string(named zone) vs the rounded instant's text", &feature, case(), a.show(), b.show());
+        }
+        // and it reads back as the rounded instant in the same zone
+        let back = call(|| ZonedDateTime::from_str_with_provider(&exp, Disambiguation::Reject, OffsetDisambiguation::Reject, &fs)).map(|zd| (zd.epoch_nanoseconds().as_i128(), zd.timezone().identifier().unwrap_or_default()));
+        // offsets are printed to the minute: when the wall time is repeated and both readings' offsets round to the printed
+        // minute (an overlap of a few seconds between two sub-minute offsets), the text denotes the earlier reading
+        // (and with minute precision the seconds of a wall time in a zone with a sub-minute offset are dropped from the text)
+        let printed = if minute { local - local.rem_euclid(60 * SEC) } else { local };
+        let reads_as = z.ref_instants_of(printed).into_iter().find(|c| round_int((printed - c) / SEC, 60, Mode::HalfExpand).0 / 60 == off_min);
+        if reads_as != Some(rounded) {
+            rep.hit("named/text_ambiguous_to_the_minute");
+        }
+        match (&back, reads_as) {
+            (Out::Ok((bi, bz)), Some(e)) if *bi == e && *bz == z.name => {}
+            (Out::Err(temporal_rs::error::ErrorKind::Range, _), None) => {}
+            _ if back.is_broken() => rep.inconclusive("C11.roundtrip", "panic"),
+            _ => rep.violation("C11.roundtrip", "ZonedDateTime::from_str(to_ixdtf_string(named zone))", &feature, case(), back.show(), format!("({reads_as:?},{})", z.name)),
+        }
+        rep.nontrivial(fp!(8u64, t as u64, (t >> 64) as u64, step as u64, m as u64, rng_hash(&z.name)));
+        rep.sample(&format!("named{}", step_sel), || json!({"op": "ZonedDateTime::to_ixdtf_string(named zone)", "case": case(), "expected": exp}));
+    }
+    rep.require("named/rounds_across_a_transition");
+    evals
 }
 
 fn rng_hash(s: &str) -> u64 {
